@@ -713,3 +713,49 @@ def check_vectorize_kernels(run, rule='R11v'):
             else:
                 run.holds(rule, f.key, construct, 'every return reachable with SymPy available is a SymPy call', f=f, node=c)
     return n
+
+
+def check_copy_dtype(run, funcs, rule='R11c'):
+    """dtype source, copy form: `A = P.copy()` (np.copy(P), zeros_like(P), empty_like(P)) has the dtype of P.  A later block store
+    `A[..] = <matrix product involving another array parameter Q>` casts the product to that dtype: when P is an integer array
+    (SE3(1, 2, 3) stores one) and Q is not, the product is truncated to integers -- silently, and the result is no longer the
+    value that was computed.  Accepted: a copy made with an explicit float / common dtype (astype(float), np.array(P, dtype=float),
+    result_type)."""
+    n = 0
+    for f in funcs:
+        params = set(f.allparams)
+        if len(params) < 2:
+            continue
+        copies = {}
+        for st in own_walk(f.node):
+            if isinstance(st, ast.Assign) and len(st.targets) == 1 and isinstance(st.targets[0], ast.Name) and isinstance(st.value, ast.Call):
+                c = st.value
+                fn = getattr(c.func, 'attr', getattr(c.func, 'id', None))
+                src_ = None
+                if fn == 'copy' and isinstance(c.func, ast.Attribute) and isinstance(c.func.value, ast.Name) and not c.args:
+                    src_ = c.func.value.id
+                elif fn in ('copy', 'zeros_like', 'empty_like', 'ones_like') and c.args and isinstance(c.args[0], ast.Name) and kwarg(c, 'dtype') is None:
+                    src_ = c.args[0].id
+                if src_ in params:
+                    copies[st.targets[0].id] = src_
+        if not copies:
+            continue
+        for st in own_walk(f.node):
+            if not (isinstance(st, ast.Assign) and len(st.targets) == 1 and isinstance(st.targets[0], ast.Subscript)
+                    and isinstance(st.targets[0].value, ast.Name) and st.targets[0].value.id in copies):
+                continue
+            a = st.targets[0].value.id
+            p = copies[a]
+            prods = [x for x in ast.walk(st.value) if isinstance(x, ast.BinOp) and isinstance(x.op, ast.MatMult)]
+            others = sorted({y.id for x in prods for y in ast.walk(x) if isinstance(y, ast.Name) and y.id in params and y.id != p})
+            if not prods:
+                continue
+            n += 1
+            construct = 'store into %s (a copy of %s)' % (a, p)
+            if others:
+                run.violation(rule, f.key, construct, '%s has the dtype of %s, but receives %s, a matrix product that involves %s: when %s is an '
+                              'integer array (SE3(1, 2, 3) holds one) and %s is not, the product is truncated to integers and the stored matrix is '
+                              'not the product' % (a, p, src(st.value, 40), '/'.join(others), p, '/'.join(others)), f=f, node=st)
+            else:
+                run.holds(rule, f.key, construct, 'the stored product involves only the array whose dtype the copy has', f=f, node=st)
+    return n
